@@ -114,7 +114,8 @@ def oracle_raw(c, ctx):
             K = int(c["knots"])
             floor = float(c["softmax_adjust"]) / (K * (1 + float(c["softmax_adjust"]))) * (b - a)
             wd = np.diff(p)
-            if np.any(wd[1:-1] < floor * (1 - 1e-6)) or wd[0] < floor / 2 * (1 - 1e-6):
+            slack = 32 * EPS * (abs(a) + abs(b))  # positions are a cumulative sum in the working precision
+            if np.any(wd[1:-1] < floor * (1 - 1e-6) - slack) or wd[0] < floor / 2 * (1 - 1e-6) - slack:
                 raise Violation("C11|RQS|min_bin_width", f"{nm} widths {wd.tolist()} below the softmax_adjust floor {floor} "
                                                          f"(softmax_adjust={c['softmax_adjust']}, knots={K}) cfg={cfg}")
         d = finite("RQS", u.derivatives, cfg)
